@@ -346,7 +346,9 @@ pub struct Sources {
 
 fn classify_err(e: &anyhow::Error) -> &'static str {
     let s = format!("{e:?}");
-    if s.contains("Failed parsing") || s.contains("syntax") || s.contains("Syntax") {
+    if s.contains("Multiple token aliases") {
+        "token-alias"
+    } else if s.contains("Failed parsing") || s.contains("syntax") || s.contains("Syntax") {
         "syntax"
     } else {
         "analysis"
@@ -358,7 +360,12 @@ pub fn generate_sources(par: &str) -> Result<Sources, String> {
     use parol::build::Builder;
     use parol::generators::{GrammarTypeInfo, UserTraitGenerator};
     let mut gc =
-        parol::obtain_grammar_config_from_string(par, false).map_err(|e| classify_err(&e).to_string())?;
+        parol::obtain_grammar_config_from_string(par, false).map_err(|e| {
+            if std::env::var("C33_DEBUG").is_ok() {
+                eprintln!("{e:?}");
+            }
+            classify_err(&e).to_string()
+        })?;
     let cfg = parol::generators::check_and_transform_grammar(&gc.cfg, gc.grammar_type)
         .map_err(|_| "transform".to_string())?;
     gc.update_cfg(cfg);
@@ -887,7 +894,11 @@ pub fn extract_trait_facts(src: &str, f: &mut Facts) {
                                         && t[x + 1].id().map(|s| s.ends_with("_built")).unwrap_or(false)
                                     {
                                         let ty = name_at(&t, x + 3);
-                                        if t[x + 4].is_p("{") || (t[x + 4].is_p("::") && ty != "Vec") {
+                                        // `Ty { … }` or `Ty::Variant(…)` (not `Vec::new()`)
+                                        let ctor = t[x + 4].is_p("::")
+                                            && t.get(x + 5).and_then(|q| q.id()).and_then(|q| q.chars().next())
+                                                .map(|c| !c.is_lowercase()).unwrap_or(false);
+                                        if t[x + 4].is_p("{") || ctor {
                                             built = Some(ty);
                                         } else if !t[x + 3].id().is_some() {
                                             built = Some(String::new());
@@ -965,13 +976,357 @@ fn extract_facts(s: &Sources) -> Vec<String> {
     out
 }
 
-pub fn generate(_seed: u64, _thorough: bool) -> Vec<String> {
-    let _ = (Rng::new(0), BTreeMap::<u8, u8>::new());
-    vec![]
+// ------------------------------------------------------------------------------------------------
+// case generation
+
+const KW: &[&str] = &[
+    "abstract", "as", "async", "await", "become", "box", "break", "const", "continue", "crate", "do", "dyn",
+    "else", "enum", "extern", "false", "final", "fn", "for", "gen", "if", "impl", "in", "let", "loop", "macro",
+    "match", "mod", "move", "mut", "override", "priv", "pub", "ref", "return", "Self", "self", "static", "struct",
+    "super", "trait", "true", "try", "type", "typeof", "union", "unsafe", "unsized", "use", "virtual", "where",
+    "while", "yield", "raw", "safe", "auto", "default", "item", "ty",
+];
+
+fn all_strings(alpha: &[char], max_len: usize) -> Vec<String> {
+    let mut res = vec![String::new()];
+    let mut frontier = vec![String::new()];
+    for _ in 0..max_len {
+        let mut next = vec![];
+        for s in &frontier {
+            for a in alpha {
+                let mut t = s.clone();
+                t.push(*a);
+                next.push(t);
+            }
+        }
+        res.extend(next.iter().cloned());
+        frontier = next;
+    }
+    res
+}
+
+fn rand_string(rng: &mut Rng, alpha: &[char], lo: usize, hi: usize) -> String {
+    let n = rng.range(lo, hi);
+    (0..n).map(|_| *rng.pick(alpha)).collect()
+}
+
+fn capitalize(s: &str) -> String {
+    let mut c = s.chars();
+    match c.next() {
+        Some(f) => f.to_ascii_uppercase().to_string() + c.as_str(),
+        None => String::new(),
+    }
+}
+
+fn rand_la(rng: &mut Rng) -> Option<LookaheadExpression> {
+    if rng.chance(1, 8) {
+        Some(LookaheadExpression {
+            is_positive: rng.chance(1, 2),
+            pattern: rng.pick(&["a", "\\+", "b"]).to_string(),
+            kind: *rng.pick(&[TerminalKind::Legacy, TerminalKind::Regex, TerminalKind::Raw]),
+        })
+    } else {
+        None
+    }
+}
+
+/// D-tie cases on the pure functions.
+pub fn generate(seed: u64, thorough: bool) -> Vec<String> {
+    let mut out: Vec<String> = vec![];
+    let mut rng = Rng::new(seed);
+    // --- NamingHelper: exhaustive small scope + keyword forms + random
+    let n = if thorough { 5 } else { 4 };
+    for s in all_strings(&['a', 'B', '1', '_'], n) {
+        out.push(format!("camel {}", enc(&s)));
+        out.push(format!("snake {}", enc(&s)));
+    }
+    for s in all_strings(&['r', '#', 'Z', '9'], 3) {
+        out.push(format!("camel {}", enc(&s)));
+        out.push(format!("snake {}", enc(&s)));
+        out.push(format!("unused 0 {}", enc(&s)));
+    }
+    for kw in KW {
+        let forms = [
+            kw.to_string(),
+            capitalize(kw),
+            kw.to_uppercase(),
+            format!("r#{kw}"),
+            format!("{kw}_"),
+            format!("_{kw}"),
+            format!("{kw}1"),
+            format!("{}_{}", kw, kw),
+        ];
+        for f in &forms {
+            for op in ["camel", "snake", "esckw", "purge"] {
+                out.push(format!("{op} {}", enc(f)));
+            }
+            out.push(format!("unused 0 {}", enc(f)));
+            out.push(format!("unused 1 {}", enc(f)));
+        }
+    }
+    let ident_alpha: Vec<char> = "abzABZ019__#r".chars().collect();
+    let ascii: Vec<char> = (0u8..128).map(|b| b as char).chain(std::iter::once('§')).collect();
+    let nrand = if thorough { 4000 } else { 700 };
+    for _ in 0..nrand {
+        let s = rand_string(&mut rng, &ident_alpha, 0, 10);
+        out.push(format!("camel {}", enc(&s)));
+        out.push(format!("snake {}", enc(&s)));
+        let t = rand_string(&mut rng, &ascii, 0, 8);
+        out.push(format!("purge {}", enc(&t)));
+        out.push(format!("camel {}", enc(&t)));
+        out.push(format!("snake {}", enc(&t)));
+    }
+    // --- inner generate_name of generate_terminal_name
+    for c in &ascii {
+        out.push(format!("tname {}", enc(&c.to_string())));
+    }
+    for s in all_strings(&['a', 'Z', '1', '_', '+', '\\', ' ', '-', '.'], 2) {
+        out.push(format!("tname {}", enc(&s)));
+    }
+    for s in ["ERROR_TOKEN", "UNMATCHABLE_TOKEN", "", "é", "x²", "\\u{0027}", "\\s+", "[a-z]+", "0|[1-9][0-9]*"] {
+        out.push(format!("tname {}", enc(s)));
+    }
+    for _ in 0..(if thorough { 6000 } else { 900 }) {
+        let s = rand_string(&mut rng, &ascii, 1, 8);
+        out.push(format!("tname {}", enc(&s)));
+    }
+    // --- utils::generate_name through augment_grammar
+    let bases = [
+        "A", "S", "A1", "A01", "A9", "A10", "A_1", "1", "", "Ab0", "A18446744073709551616", "A007", "x99", "A0",
+        "a_b", "AB", "9", "09",
+    ];
+    for _ in 0..(if thorough { 3000 } else { 500 }) {
+        let base = rng.pick(&bases).to_string();
+        let prefix: String = {
+            let t = base.trim_end_matches(|c: char| c.is_ascii_digit());
+            t.to_string()
+        };
+        let mut names = vec![base.clone()];
+        let lo = rng.below(3);
+        for k in 0..rng.below(7) {
+            if rng.chance(3, 4) {
+                names.push(format!("{prefix}{}", lo + k));
+            }
+        }
+        for _ in 0..rng.below(3) {
+            names.push(rng.pick(&bases).to_string());
+        }
+        if rng.chance(1, 4) {
+            names.push(format!("{prefix}0{}", rng.below(3)));
+        }
+        // shuffle
+        for i in (1..names.len()).rev() {
+            let j = rng.below(i + 1);
+            names.swap(i, j);
+        }
+        let idx = names.iter().position(|n| *n == base).unwrap();
+        out.push(format!("augname {} {}", enc_list(&names), idx));
+    }
+    // --- generate_terminal_names on direct Cfg values
+    let nts = [
+        "S", "A", "B", "a_b", "AB", "Ab", "Plus", "Error", "Newline", "NewLine", "EndOfInput", "Whitespace", "_",
+        "A1", "A_1", "Esc", "If", "r#if", "LineComment", "line_comment", "Plus0",
+    ];
+    let texts = [
+        "+", "\\+", "a", "A", "a1", "1", "if", "ERROR_TOKEN", "UNMATCHABLE_TOKEN", " ", "_", "a b", "a-b", "\\\\", ".",
+        "§", "{", "\\{", "new_line", "plus", "Plus", "\\s+", "a.b", "==", "=", "\\u{0027}", "\r\n", "error",
+    ];
+    let kinds = [TerminalKind::Legacy, TerminalKind::Regex, TerminalKind::Raw];
+    for _ in 0..(if thorough { 3000 } else { 500 }) {
+        let np = rng.range(1, 7);
+        let mut cfg: Option<Cfg> = None;
+        for _ in 0..np {
+            let lhs = rng.pick(&nts).to_string();
+            let len = if rng.chance(1, 2) { 1 } else { rng.below(4) };
+            let mut rhs = vec![];
+            for _ in 0..len {
+                if len == 1 || rng.chance(2, 3) {
+                    rhs.push(Symbol::T(Terminal::Trm(
+                        rng.pick(&texts).to_string(),
+                        *rng.pick(&kinds),
+                        vec![0],
+                        SymbolAttribute::None,
+                        None,
+                        None,
+                        rand_la(&mut rng),
+                    )));
+                } else {
+                    rhs.push(Symbol::n(nts[rng.below(nts.len())]));
+                }
+            }
+            let c = cfg.take().unwrap_or_else(|| Cfg::with_start_symbol(&lhs));
+            cfg = Some(c.add_pr(Pr::new(&lhs, rhs)));
+        }
+        let cfg = cfg.unwrap();
+        out.push(format!("tnames {} {} {}", cfg_enc(&cfg), prod_summary(&cfg), term_summary(&cfg)));
+    }
+    out
+}
+
+// --- PAR grammars for the source checker, biased towards name collisions
+
+struct NtPool {
+    label: &'static str,
+    names: &'static [&'static str],
+}
+
+const POOLS: &[NtPool] = &[
+    NtPool { label: "plain", names: &["A", "B", "Item", "Expr", "my_rule", "X9", "Abc", "D_e_f"] },
+    NtPool { label: "numeric", names: &["A1", "A01", "A2", "A10", "A1_0", "B1", "B_2", "A_", "C0", "C00"] },
+    NtPool { label: "helper", names: &["SList", "SOpt", "SGroup", "AList", "AOpt", "AGroup", "SList0", "ASuffix"] },
+    NtPool { label: "keyword", names: &["Type", "type", "Fn", "match", "Box", "Loop", "Mod", "Gen", "Try", "Union", "Async", "Dyn", "r_type", "Let", "Yield", "While"] },
+    NtPool { label: "framework", names: &["Token", "ASTType", "Vec", "Option", "Trace", "Context", "Push", "Pop", "New", "Children", "ProdNum", "UserGrammar", "ItemStack"] },
+    NtPool { label: "camel", names: &["a_b", "AB", "Ab", "A_b", "aB", "ab", "A_B", "A1", "A_1", "a1", "S_list", "SList"] },
+    NtPool { label: "underscore", names: &["_", "__", "A", "B"] },
+    NtPool { label: "selfish", names: &["Self", "Crate", "Super", "self", "A", "B"] },
+    NtPool { label: "imports", names: &["Result", "ParserError", "GrAuto", "GrTrait", "ParseTreeType", "UserActionsTrait", "A"] },
+];
+
+const TERMS: &[&str] = &[
+    "\"a\"", "'a'", "/a/", "\"b\"", "'b'", "\"\\+\"", "'+'", "/\\+/", "\"if\"", "'if'", "\"a1\"", "\"1\"", "'1'", "\"A\"",
+    "\"a_b\"", "\"a-b\"", "'a b'", "\"\\*\"", "'*'", "\"==\"", "\"=\"", "'='", "\"type\"", "'type'", "\"x\"", "\"y\"",
+    "\"z\"", "'.'", "\"\\.\"", "'a.b'", "\"a.b\"", "\"token\"", "\"0\"", "\"00\"",
+];
+const TERMS_SELF: &[&str] = &["\"self\"", "'super'", "\"crate\"", "\"Self\""];
+const TERMS_WS: &[&str] = &["\" \"", "' '"];
+const MEMBERS: &[&str] = &["type", "item", "a", "a0", "token", "r_fn", "Loop", "x_1", "X1", "context", "result"];
+
+fn par_grammar(rng: &mut Rng, pool: &NtPool, extra_terms: &[&str], lalr: bool) -> String {
+    let n = rng.range(1, pool.names.len().min(5));
+    let mut names: Vec<String> = vec![];
+    while names.len() < n {
+        let c = rng.pick(pool.names).to_string();
+        if !names.contains(&c) && c != "S" {
+            names.push(c);
+        }
+    }
+    let mut terms: Vec<&str> = TERMS.to_vec();
+    terms.extend_from_slice(extra_terms);
+    let pick_term = |rng: &mut Rng| -> String {
+        if !extra_terms.is_empty() && rng.chance(1, 3) {
+            rng.pick(extra_terms).to_string()
+        } else {
+            rng.pick(&terms).to_string()
+        }
+    };
+    let mut g = String::from("%start S\n");
+    if lalr {
+        g.push_str("%grammar_type 'LALR(1)'\n");
+    }
+    if extra_terms.iter().any(|t| t.contains(' ')) {
+        g.push_str("%auto_ws_off\n");
+    }
+    g.push_str("%%\n");
+    // S references every other non-terminal, sometimes twice, sometimes inside [ ] or { }
+    g.push_str("S:");
+    for (i, nm) in names.iter().enumerate() {
+        let reps = if rng.chance(1, 4) { 2 } else { 1 };
+        for _ in 0..reps {
+            match rng.below(8) {
+                0 => g.push_str(&format!(" [ \"o{i}\" {nm} ]")),
+                1 => g.push_str(&format!(" {{ \"r{i}\" {nm} }}")),
+                2 => g.push_str(&format!(" {nm}@{}", rng.pick(MEMBERS))),
+                _ => g.push_str(&format!(" {nm}")),
+            }
+        }
+    }
+    if rng.chance(1, 3) {
+        g.push_str(&format!(" {}", pick_term(rng)));
+    }
+    g.push_str(";\n");
+    for (i, nm) in names.iter().enumerate() {
+        let alts = rng.range(1, 3);
+        let mut used: Vec<String> = vec![];
+        let mut alt_texts = vec![];
+        for _ in 0..alts {
+            // leading terminal unique within this non-terminal (by its text between the delimiters)
+            let mut lead = pick_term(rng);
+            let mut guard = 0;
+            while used.iter().any(|u| u[1..u.len() - 1] == lead[1..lead.len() - 1]) && guard < 20 {
+                lead = pick_term(rng);
+                guard += 1;
+            }
+            if guard >= 20 {
+                continue;
+            }
+            used.push(lead.clone());
+            let mut a = format!(" {lead}");
+            if rng.chance(1, 6) {
+                a.push('^');
+            } else if rng.chance(1, 6) {
+                a.push_str(&format!("@{}", rng.pick(MEMBERS)));
+            }
+            for _ in 0..rng.below(3) {
+                if rng.chance(1, 2) && i + 1 < names.len() {
+                    let j = rng.range(i + 1, names.len() - 1);
+                    a.push_str(&format!(" {}", names[j]));
+                } else {
+                    a.push_str(&format!(" {}", pick_term(rng)));
+                }
+            }
+            alt_texts.push(a);
+        }
+        g.push_str(&format!("{nm}:{};\n", alt_texts.join(" |")));
+    }
+    g
+}
+
+/// `src` cases. The streams that are prone to a listed finding are capped so that they cannot crowd
+/// out the rest of the exploration.
+pub fn generate_src(seed: u64, thorough: bool) -> Vec<String> {
+    let mut rng = Rng::new(seed ^ 0x33);
+    let mut out = vec![];
+    let scale = if thorough { 6 } else { 1 };
+    let budget: &[(&str, usize)] = &[
+        ("plain", 30), ("numeric", 40), ("helper", 40), ("keyword", 40), ("framework", 40),
+        ("camel", 40), ("underscore", 8), ("selfish", 8), ("imports", 8),
+    ];
+    for (label, count) in budget {
+        let pool = POOLS.iter().find(|p| p.label == *label).unwrap();
+        for _ in 0..count * scale {
+            let lalr = rng.chance(1, 6);
+            out.push(format!("src {}", enc(&par_grammar(&mut rng, pool, &[], lalr))));
+        }
+    }
+    let plain = &POOLS[0];
+    for _ in 0..8 * scale {
+        out.push(format!("src {}", enc(&par_grammar(&mut rng, plain, TERMS_SELF, false))));
+    }
+    for _ in 0..8 * scale {
+        out.push(format!("src {}", enc(&par_grammar(&mut rng, plain, TERMS_WS, false))));
+    }
+    out
 }
 
 pub fn cli(args: &[String]) {
     match args.first().map(|s| s.as_str()) {
+        // `src` cases only; every reply is prefixed with `@@ ` because parol itself prints to stdout
+        // (LALR conflict resolution messages) while generating
+        Some("runsrc") => {
+            use std::io::BufRead;
+            std::panic::set_hook(Box::new(|_| {}));
+            for line in std::io::stdin().lock().lines() {
+                let line = line.unwrap();
+                let words: Vec<String> = line.split_whitespace().map(|s| s.to_string()).collect();
+                let r = std::panic::catch_unwind(|| {
+                    let w: Vec<&str> = words.iter().map(|s| s.as_str()).collect();
+                    run_case(&w)
+                });
+                let reply = match r {
+                    Ok(Some(s)) => s,
+                    Ok(None) => "bad-op".to_string(),
+                    Err(_) => "panic".to_string(),
+                };
+                println!("@@ {reply}");
+            }
+        }
+        Some("gensrc") => {
+            let seed: u64 = args.get(1).and_then(|s| s.parse().ok()).unwrap_or(0);
+            let thorough = args.get(2).map(|s| s == "thorough").unwrap_or(false);
+            for l in generate_src(seed, thorough) {
+                println!("{l}");
+            }
+        }
         // debugging aid: `pv c33 show <file.par>` prints the generated sources
         Some("show") => {
             let par = std::fs::read_to_string(&args[1]).unwrap();
